@@ -100,6 +100,32 @@ def run(names_path):
         rej, _ = validate(c, "Trace_Ser", cfg)
         print(f"  [{'ok' if rej else 'FAIL'}] serializer trace with a corrupted {name} rejected")
         ok &= rej
+    # the full-copy reader trace: a read length, an alignment unit, the returned value, the final position
+    rraw = [x for x in harness(["record", "7", "40", "20"]).splitlines() if re.search(r'"ev":\s*"r(init|d|align|ret)"', x)]
+    rcfg = os.path.join(WORK, tag, "tread.cfg")
+    write_cfg(rcfg, dict(consts, BugCFlowTags=False, BugOptTag=False, BugArray0=False, BugZstSlice=False, BugZstNoAlign=False,
+                         ReaderGrain="call", ReaderFaulty=False, MaxRFaults=0),
+              init="TInit", next_="TNext", invariants=["Furthest", "TInBounds"], extra="POSTCONDITION Accepted")
+    rej, r = validate(rraw, "Trace_Read", rcfg)
+    good = not rej and r.error is None
+    print(f"  [{'ok' if good else 'FAIL'}] unmodified reader trace accepted ({len(rraw)} events)")
+    ok &= good
+    rtests = [
+        ("read length", lambda e: e["ev"] == "rd" and e["pos"] > 45 and e["len"] >= 2, lambda e: e.__setitem__("len", e["len"] - 1)),
+        ("alignment unit", lambda e: e["ev"] == "ralign" and e["unit"] > 1, lambda e: e.__setitem__("unit", e["unit"] * 2)),
+        ("alignment skip", lambda e: e["ev"] == "ralign" and e["after"] > e["pos"], lambda e: e.__setitem__("after", e["pos"])),
+        ("returned value", lambda e: e["ev"] == "rret" and e["val"] and e["val"][0] != [], lambda e: e.__setitem__("val", [[]])),
+        ("final position", lambda e: e["ev"] == "rret", lambda e: e.__setitem__("rpos", e["rpos"] - 1)),
+    ]
+    for name, pred, mut in rtests:
+        c = corrupt(rraw, pred, mut)
+        if c is None:
+            print(f"  [FAIL] no event to corrupt for {name}")
+            ok = False
+            continue
+        rej, _ = validate(c, "Trace_Read", rcfg)
+        print(f"  [{'ok' if rej else 'FAIL'}] reader trace with a corrupted {name} rejected")
+        ok &= rej
     craw = harness(["cursor", "record", "3", "4", "60"]).splitlines()
     ccfg = os.path.join(WORK, tag, "tcur.cfg")
     open(ccfg, "w").write("INIT TInit\nNEXT TNext\nCHECK_DEADLOCK FALSE\nPOSTCONDITION Accepted\n")
